@@ -86,6 +86,17 @@ func (x *exch) oracle(r *hk.Run) {
 		fail("header-extra", fmt.Sprintf("header %q was not sent by the origin", k), vs, nil)
 		break
 	}
+	// informational responses are reported with their own status and fields, in order (httptrace)
+	if len(s.Interims) != len(a.Interim) {
+		fail("interim-count", "number of 1xx responses reported through httptrace differs from the number sent", len(s.Interims), len(a.Interim))
+	} else {
+		for i, im := range a.Interim {
+			if s.Interims[i].Code != im.Code || !reflect.DeepEqual(nonEmptyH(s.Interims[i].Header), group(im.Fields)) {
+				fail("interim-header", fmt.Sprintf("1xx response %d reported through httptrace differs from the one sent", i), s.Interims[i], im)
+				break
+			}
+		}
+	}
 	// trailers
 	wantT := map[string][]string{}
 	if x.carriesTrailers() {
@@ -110,7 +121,11 @@ func (x *exch) oracle(r *hk.Run) {
 			fail("body-"+what, fmt.Sprintf("%s: body differs from what the origin sent (first difference at offset %d)", what, firstDiff(got, exp)), digest(got), digest(exp))
 		}
 	}
-	switch x.Mode {
+	mode := x.Mode
+	if x.Upgrade && mode == "auto" {
+		mode = "stream" // a 101 is not read automatically (status <= 199): the caller reads the raw stream from Body
+	}
+	switch mode {
 	case "auto":
 		if s.BytesNil {
 			fail("body-bytes-nil", "Bytes() is nil after an auto-read", nil, nil)
@@ -217,6 +232,14 @@ func (x *exch) delivered() []byte {
 	return x.s.Out
 }
 
+func nonEmptyH(h map[string][]string) map[string][]string {
+	m := map[string][]string{}
+	for k, v := range h {
+		m[k] = v
+	}
+	return m
+}
+
 func (x *exch) carriesTrailers() bool {
 	if x.Method == "HEAD" || !bodyAllowed(x.A.Code) {
 		return false
@@ -246,6 +269,9 @@ func (x *exch) declaresLength() bool {
 // because the message framing put it on the wire (documented interpretation, design.d/C02.md)
 func (x *exch) transportField(k string, vs []string) bool {
 	a := x.A
+	if x.Upgrade && (k == "Upgrade" || k == "Connection") {
+		return true
+	}
 	switch k {
 	case "Content-Length":
 		if x.Proto == "h1" && x.H1.Framing == wire.FrCL || x.Proto == "h2" && x.H2.Declare || x.Proto == "h3" && x.H3.Declare {
